@@ -19,6 +19,7 @@ theorem junk_head_facts (lex : LexCfg) (j0 : Byte) (js : List Byte)
 theorem attr_ref_junk (env : Env F) (strict : Bool) (a : AttrD) (tg : String) (hty : a.ty = .one (.entity tg)) (hder : a.derived = false)
     (j0 : Byte) (js : List Byte) (hj0s : isSpace j0 = false) (hj047 : j0 ≠ 47) (hj036 : j0 ≠ 36) (hj035 : j0 ≠ 35) (hj064 : j0 ≠ 64)
     (hj : ∀ b ∈ j0 :: js, delimAt env.lex attrDelims b = false)
+    (hsemi : env.lex.criStopsAtSemicolon = true → ∀ b ∈ j0 :: js, b ≠ 59)
     (l : List Byte) (sk : Bool) (d : Byte) (rest : List Byte) (hd : d = 44 ∨ d = 41) :
     attrSTEPread env strict a (G l (j0 :: (js ++ d :: rest)) sk) =
       .ok (.warning, .one (.atom .unset), G ((j0 :: js).reverse ++ l) (d :: rest) sk) := by
@@ -41,7 +42,7 @@ theorem attr_ref_junk (env : Env F) (strict : Bool) (a : AttrD) (tg : String) (h
   rw [show IStream.putback j0 (G (j0 :: l) (js ++ d :: rest) sk) = G l (j0 :: (js ++ d :: rest)) sk from putback_good j0 l _ sk]
   rw [show ∀ e, checkRemainingInput env.lex (some attrDelims) (G l (j0 :: (js ++ d :: rest)) sk) e =
     (G ((j0 :: js).reverse ++ l) (d :: rest) sk, e.greater .warning) from
-    fun e => cri_junk env.lex j0 js hj0s hj047 hj l rest d false sk e hd]
+    fun e => cri_junk env.lex j0 js hj0s hj047 hj hsemi l rest d false sk e hd]
   cases (env.lex.refReportsNonRef && (some j0).isSome && refNotDelim (some attrDelims) j0) <;> rfl
 
 /-- something that is no binary literal (starts with neither `"` nor a hexadecimal digit; at least two characters, without
@@ -51,6 +52,7 @@ theorem attr_binary_junk (env : Env F) (strict : Bool) (a : AttrD) (hty : a.ty =
     (j0 j1 : Byte) (js : List Byte) (hj0s : isSpace j0 = false) (hj036 : j0 ≠ 36) (hj034 : j0 ≠ 34) (hj0x : isXDigit j0 = false)
     (hj1s : isSpace j1 = false) (hj147 : j1 ≠ 47)
     (hj : ∀ b ∈ j0 :: j1 :: js, delimAt env.lex attrDelims b = false)
+    (hsemi : env.lex.criStopsAtSemicolon = true → ∀ b ∈ j0 :: j1 :: js, b ≠ 59)
     (l : List Byte) (sk : Bool) (d : Byte) (rest : List Byte) (hd : d = 44 ∨ d = 41) :
     attrSTEPread env strict a (G l (j0 :: j1 :: (js ++ d :: rest)) sk) =
       .ok (.warning, .one (.atom .unset), G ((j0 :: j1 :: js).reverse ++ l) (d :: rest) sk) := by
@@ -75,9 +77,10 @@ theorem attr_binary_junk (env : Env F) (strict : Bool) (a : AttrD) (hty : a.ty =
   rw [hrb]
   simp only [List.isEmpty_nil, if_true]
   have hj' : ∀ b ∈ j1 :: js, delimAt env.lex attrDelims b = false := fun b hb => hj b (List.mem_cons_of_mem _ hb)
+  have hsemi' : env.lex.criStopsAtSemicolon = true → ∀ b ∈ j1 :: js, b ≠ 59 := fun h b hb => hsemi h b (List.mem_cons_of_mem _ hb)
   rw [show checkRemainingInput env.lex (some attrDelims) (G (j0 :: l) (j1 :: (js ++ d :: rest)) sk) Sev.warning =
     (G ((j1 :: js).reverse ++ (j0 :: l)) (d :: rest) sk, Sev.warning.greater .warning) from
-    cri_junk env.lex j1 js hj1s hj147 hj' (j0 :: l) rest d false sk .warning hd]
+    cri_junk env.lex j1 js hj1s hj147 hj' hsemi' (j0 :: l) rest d false sk .warning hd]
   simp
   rfl
 
@@ -90,6 +93,7 @@ theorem attr_select_junk (env : Env F) (strict : Bool) (a : AttrD) (n : String) 
     (hj00 : j0 ≠ 0) (hj035 : j0 ≠ 35) (hj046 : j0 ≠ 46) (hj039 : j0 ≠ 39) (hj034 : j0 ≠ 34) (hj0d : isDigit j0 = false)
     (hj045 : j0 ≠ 45) (hj040 : j0 ≠ 40)
     (hj : ∀ b ∈ j0 :: js, delimAt env.lex attrDelims b = false)
+    (hsemi : env.lex.criStopsAtSemicolon = true → ∀ b ∈ j0 :: js, b ≠ 59)
     (l : List Byte) (sk : Bool) (d : Byte) (rest : List Byte) (hd : d = 44 ∨ d = 41) :
     attrSTEPread env strict a (G l (j0 :: (js ++ d :: rest)) sk) =
       .ok (.warning, .one (.atom .unset), G ((j0 :: js).reverse ++ l) (d :: rest) sk) := by
@@ -119,7 +123,7 @@ theorem attr_select_junk (env : Env F) (strict : Bool) (a : AttrD) (n : String) 
   simp only
   rw [show checkRemainingInput env.lex (some attrDelims) (G l (j0 :: (js ++ d :: rest)) sk) Sev.warning =
     (G ((j0 :: js).reverse ++ l) (d :: rest) sk, Sev.warning.greater .warning) from
-    cri_junk env.lex j0 js hj0s hj047 hj l rest d false sk .warning hd]
+    cri_junk env.lex j0 js hj0s hj047 hj hsemi l rest d false sk .warning hd]
   rfl
 
 /-- something that does not start with `(` for an aggregate attribute: `STEPaggregate::ReadValue` returns INPUT_ERROR at once;
@@ -167,6 +171,7 @@ theorem scanFloat_junk (l : List Byte) (j0 : Byte) (t : List Byte) (h : notNum j
 theorem attr_number_junk (env : Env F) (strict : Bool) (a : AttrD) (hty : a.ty = .one .number) (hder : a.derived = false)
     (j0 : Byte) (js : List Byte) (hj0s : isSpace j0 = false) (hj047 : j0 ≠ 47) (hj036 : j0 ≠ 36) (hnn : notNum j0)
     (hj : ∀ b ∈ j0 :: js, delimAt env.lex attrDelims b = false)
+    (hsemi : env.lex.criStopsAtSemicolon = true → ∀ b ∈ j0 :: js, b ≠ 59)
     (l : List Byte) (sk : Bool) (d : Byte) (rest : List Byte) (hd : d = 44 ∨ d = 41) :
     attrSTEPread env strict a (G l (j0 :: (js ++ d :: rest)) sk) =
       .ok (.warning, .one (.atom .unset), G ((j0 :: js).reverse ++ l) (d :: rest) sk) := by
@@ -190,9 +195,11 @@ theorem attr_number_junk (env : Env F) (strict : Bool) (a : AttrD) (hty : a.ty =
          · exact Or.inr rfl, ?_⟩
     simp only [readNumber, ws_good0 _ _ _ _ hj0s, extractFloatText_G l j0 _ sk hj0s, scanFloat_junk l j0 _ hnn, hconv,
       IStream.setFail, G, Bool.false_or, List.isEmpty_cons, IStream.failed, Bool.or_false]
-    rw [cri_junk env.lex j0 js hj0s hj047 hj l rest d true sk _ hd]
+    rw [cri_junk env.lex j0 js hj0s hj047 hj hsemi l rest d true sk _ hd]
   obtain ⟨e0, he0, hrn⟩ := hrn
-  simp only [bind, Except.bind, pure, Except.pure, hrn]
+  have hrnS := readNumberS_of env.ops env.lex (some attrDelims) (G l (j0 :: (js ++ d :: rest)) sk) .null
+    (by rw [hrn]; exact realSentinel_none env.ops)
+  simp only [bind, Except.bind, pure, Except.pure, hrnS, hrn]
   rcases he0 with rfl | rfl <;> simp [realValue, valueToAtom] <;> rfl
 
 /-- `$` with something behind it (`$1`, `$abc`; without delimiters) for an OPTIONAL attribute: the `$` is taken as the
@@ -201,6 +208,7 @@ theorem attr_dollar_junk (env : Env F) (strict : Bool) (a : AttrD) (hopt : a.opt
     (hkeep : env.lex.dollarKeepsError = true)
     (j0 : Byte) (js : List Byte) (hj0s : isSpace j0 = false) (hj047 : j0 ≠ 47)
     (hj : ∀ b ∈ j0 :: js, delimAt env.lex attrDelims b = false)
+    (hsemi : env.lex.criStopsAtSemicolon = true → ∀ b ∈ j0 :: js, b ≠ 59)
     (l : List Byte) (sk : Bool) (d : Byte) (rest : List Byte) (hd : d = 44 ∨ d = 41) :
     attrSTEPread env strict a (G l (36 :: j0 :: (js ++ d :: rest)) sk) =
       .ok (.warning, nullOf a, G ((j0 :: js).reverse ++ 36 :: l) (d :: rest) sk) := by
@@ -212,7 +220,7 @@ theorem attr_dollar_junk (env : Env F) (strict : Bool) (a : AttrD) (hopt : a.opt
   rw [show (G l (36 :: j0 :: (js ++ d :: rest)) sk).ignore1 = G (36 :: l) (j0 :: (js ++ d :: rest)) sk from ignore1_good l 36 _ sk]
   rw [show checkRemainingInput env.lex (some attrDelims) (G (36 :: l) (j0 :: (js ++ d :: rest)) sk) Sev.null =
     (G ((j0 :: js).reverse ++ 36 :: l) (d :: rest) sk, Sev.null.greater .warning) from
-    cri_junk env.lex j0 js hj0s hj047 hj (36 :: l) rest d false sk .null hd]
+    cri_junk env.lex j0 js hj0s hj047 hj hsemi (36 :: l) rest d false sk .null hd]
   simp [hopt, hkeep]
   rfl
 
@@ -229,6 +237,7 @@ theorem attr_dollar_junk_filler (env : Env F) (a : AttrD) (k : AttrNull.Kind) (h
     (hfill : ∀ s, (fillerValue env.ops k s).1 = Sev.usermsg)
     (j0 : Byte) (js : List Byte) (hj0s : isSpace j0 = false) (hj047 : j0 ≠ 47)
     (hj : ∀ b ∈ j0 :: js, delimAt env.lex attrDelims b = false)
+    (hsemi : env.lex.criStopsAtSemicolon = true → ∀ b ∈ j0 :: js, b ≠ 59)
     (l : List Byte) (sk : Bool) (d : Byte) (rest : List Byte) (hd : d = 44 ∨ d = 41) :
     attrSTEPread env false a (G l (36 :: j0 :: (js ++ d :: rest)) sk) =
       .ok (.warning, (fillerValue env.ops k (G ((j0 :: js).reverse ++ 36 :: l) (d :: rest) sk)).2.1,
@@ -241,7 +250,7 @@ theorem attr_dollar_junk_filler (env : Env F) (a : AttrD) (k : AttrNull.Kind) (h
   rw [show (G l (36 :: j0 :: (js ++ d :: rest)) sk).ignore1 = G (36 :: l) (j0 :: (js ++ d :: rest)) sk from ignore1_good l 36 _ sk]
   rw [show checkRemainingInput env.lex (some attrDelims) (G (36 :: l) (j0 :: (js ++ d :: rest)) sk) Sev.null =
     (G ((j0 :: js).reverse ++ 36 :: l) (d :: rest) sk, Sev.null.greater .warning) from
-    cri_junk env.lex j0 js hj0s hj047 hj (36 :: l) rest d false sk .null hd]
+    cri_junk env.lex j0 js hj0s hj047 hj hsemi (36 :: l) rest d false sk .null hd]
   have hf := hfill (G ((j0 :: js).reverse ++ 36 :: l) (d :: rest) sk)
   have h2 : (fillerValue env.ops k (G ((j0 :: js).reverse ++ 36 :: l) (d :: rest) sk)).2.2 =
       G ((j0 :: js).reverse ++ 36 :: l) (d :: rest) sk := rfl
